@@ -283,6 +283,12 @@ def obligations(tier, known):
             expect = "hold"
             if fid and fid in known:
                 expect = "witness:" + fid
+            if k == 0:
+                # the good entry carries all the spelling classes: one obligation per class of `directory`
+                for dcl in range(len(DIR_CLASSES)):
+                    obs.append(Ob(id="db/%s/%s/dir%d" % (form, KINDS[k], dcl), kind="ch", module=__name__, func="h_db",
+                                  params=dict(form=form, fixkind=k, fixdir=dcl), timeout=400, group="db", expect=expect))
+                continue
             obs.append(Ob(id="db/%s/%s" % (form, KINDS[k]), kind="ch", module=__name__, func="h_db",
                           params=dict(form=form, fixkind=k), timeout=400, group="db", expect=expect))
     return obs
